@@ -26,7 +26,7 @@ RULE = ('repeated hits (3-12 per case, varying locals) of a tracepoint placed in
         'by its condition and a later one was due, or an expression named a non-local; distinct by canonical case')
 ASSUMPTIONS = ['conditions are boolean-valued or failing; expressions are side-effect free',
                'an error result may be carried either in the error field or as a result typed as the exception']
-REQUIRE = {'hits_checked': 3000, 'rejected_then_due': 150, 'failing_conditions': 100, 'global_scope_exprs': 150,
+REQUIRE = {'neighbour_with_own_condition': 100, 'hits_checked': 3000, 'rejected_then_due': 150, 'failing_conditions': 100, 'global_scope_exprs': 150,
            'agent_name_exprs': 50, 'module_level_cases': 20, 'closure_cases': 20,
            'padded_expression_cases': 80}
 T0 = 1_700_000_000_000_000_000
@@ -38,6 +38,9 @@ NAMES = ["ann", "bob", "cy"]
 v = -100            # shadowed by the parameter v of the functions below
 name = "module-level-name"
 flag = "module-level-flag"
+format = "csv"       # module-level names that happen to be names of builtins as well
+filter = ["active"]
+id = 77
 MOD_MARK = GLOBAL_LIMIT + 1  # @hit_mod
 
 
@@ -92,18 +95,20 @@ CONDS_FN = ['"yes"[1:2]', '""', '","', 'name[5:]',    # text that is not one of 
             'isinstance(v, int) and v >= GLOBAL_LIMIT', 'all([flag, obj.ok])', 'uuid is not None',
             '10 / v > 2', 'NAMES[v] == "ann"', 'name[2] == "n"', 'NAMES[v + 1] != "zz"', 'int(name) > 0 or True',
             '[0, 1][v] == 1', 'v > 0 and NAMES[v - 1] == "ann"',
-            'FrameCollector is not None', 'bool(v)', 'v in (1, 3, 5)']
+            'FrameCollector is not None', 'bool(v)', 'v in (1, 3, 5)',
+            'format == "csv"', 'format != "csv"', 'id > 70 + v', 'len(filter) == v']
 CONDS_MOD = ['GLOBAL_LIMIT == 3', 'GLOBAL_LIMIT > 5', 'helper is not None', 'len(NAMES) == 3', 'nope_zz', '',
-             'uuid is not None', '"MOD_MARK" in dir()']
+             'uuid is not None', '"MOD_MARK" in dir()', 'format == "csv"', 'id < 5']
 EXPRS = ['ValueError("kept", v)', 'obj.problem',      # expressions whose *value* is an exception object (nothing is raised)
          'sum(x * v for x in [1, 2, 3])', '(lambda: name.upper())()', 'sorted(n_ + name for n_ in NAMES)',
          'v', 'name', 'v + 1', 'GLOBAL_LIMIT', 'NAMES', 'helper(v)', 'len(NAMES)', 'NAMES[0] + name', 'obj.ok',
          'obj.tags', 'sorted(NAMES)', 'max(v, GLOBAL_LIMIT)', 'uuid', 'FrameCollector', 'time_ns', 'deep',
-         'undefined_zz', '1/0', 'fail_with("x")', 'raise_base()', 'str(flag)', '[v, GLOBAL_LIMIT]', 'abs(-v)']
+         'undefined_zz', '1/0', 'fail_with("x")', 'raise_base()', 'str(flag)', '[v, GLOBAL_LIMIT]', 'abs(-v)',
+         'format', 'id + v', 'filter', 'format.upper() + name']
 EXPRS_INNER = ['captured', 'captured + v', 'use']
 EXPRS_METH = ['self.scale', 'self.scale * v', 'K.scale']
 AGENT_NAMES = ('uuid', 'FrameCollector', 'time_ns', 'deep')
-NONLOCAL = ('GLOBAL_LIMIT', 'NAMES', 'helper', 'fail_with', 'raise_base', 'sorted', 'max', 'len', 'abs', 'K.')
+NONLOCAL = ('format', 'filter', 'GLOBAL_LIMIT', 'NAMES', 'helper', 'fail_with', 'raise_base', 'sorted', 'max', 'len', 'abs', 'K.')
 
 
 def plan(tier, seed):
@@ -168,7 +173,18 @@ def case_cond(seed, out, spec, wd):
         out.count('snapshot_with_companion_metric')
     trig = line_trigger('tp', base, line, args, watches, metrics)
     rig = Rig(custom={}, host_dir=wd, plugins=[plugins.RecLogger(), plugins.RecMetrics()])
-    rig.install([trig])
+    # a neighbour on the same line with a condition of its own (unlimited log tracepoint): each tracepoint is judged by
+    # its own condition at every hit, whichever of the two is looked at first
+    cond2 = None
+    if place != 'module' and r.chance(0.35):
+        cond2 = r.pick([c_ for c_ in CONDS_FN if c_.strip() and c_ != cond.strip()])
+        trig_n = line_trigger('tpN', base, line, {'fire_count': '-1', 'fire_period': '0', 'condition': cond2,
+                                                  'snapshot': 'no_collect', 'log_msg': 'neighbour'}, [], [])
+        rig.install([trig_n, trig] if r.chance(0.5) else [trig, trig_n])
+        out.count('neighbour_with_own_condition')
+    else:
+        rig.install([trig])
+    truth_n, logs_n = [], []
     nhits = r.randrange(3, 13)
     inputs = [(r.randrange(0, 6), r.chance(0.5), r.pick(['ann', 'bo', 'cy', 'zed', '7']), r.chance(0.5)) for _ in range(nhits)]
     truth = []        # per hit: (cond_true, failed_exc_name)
@@ -188,6 +204,9 @@ def case_cond(seed, out, spec, wd):
                 val, failed = rec_eval(c, frame)
                 truth.append((failed is None and val is True, type(failed).__name__ if failed else None))
             expected_vals.append([(e,) + rec_eval(e, frame) for e in exprs])
+            if cond2 is not None:
+                val, failed = rec_eval(cond2, frame)
+                truth_n.append(failed is None and val is True)
 
     def post(ev, frame, arg):
         if ev.kind == 'line' and ev.line == line and ev.base == base:
@@ -207,7 +226,9 @@ def case_cond(seed, out, spec, wd):
 
     def hook(name, callback, payload):
         h = cur['hit']
-        if callback == 'log':
+        if callback == 'log' and payload.get('tp_id') == 'tpN':
+            logs_n.append(h)
+        elif callback == 'log':
             logs.setdefault(h, []).append(payload['msg'])
         elif callback == 'metric':
             mets.setdefault(h, []).append(payload)
@@ -267,6 +288,13 @@ def case_cond(seed, out, spec, wd):
             'condition:companion-metric-differs'
         out.violation(mech, 'the metric of the same tracepoint was reported at hits %s, its snapshots are due at %s '
                             '(condition %r)' % (sorted(set(mets)), due, args.get('condition')), witness, replay)
+    if cond2 is not None:
+        want_n = [h for h, ok in enumerate(truth_n) if ok]
+        if sorted(logs_n) != want_n:
+            out.violation('condition:neighbour-verdict',
+                          'the neighbouring tracepoint on the same line (condition %r, unlimited) logged at hits %s, its '
+                          'condition holds at hits %s (the other tracepoint there has condition %r)' % (
+                              cond2, sorted(logs_n), want_n, args.get('condition')), witness, replay)
     actual = sorted(set(acted))
     if len(acted) != len(set(acted)) and kind != 'metric':
         out.violation('condition:collected-twice', 'one hit produced two %s actions' % kind, witness, replay)
